@@ -111,3 +111,9 @@ import procinv_util as _pv8
 MODULE = _pv8.listext_module("C13")
 THEOREMS = THEOREMS + [t for t in _pv8.LISTEXT_LAWS + _pv8.LISTEXT["C13"] if t not in THEOREMS]
 META["note"] = META["note"] + _pv8.LISTEXT_NOTE
+
+
+# FINAL ROUND (work package wp17): session forms over HistInstalls at the real builtins (Lemmas/ListExtSession.lean)
+MODULE = (MODULE if isinstance(MODULE, list) else [MODULE]) + [_pv8.LISTEXT_SESSION_MODULE]
+THEOREMS = THEOREMS + [t for t in _pv8.listext_session("C13") if t not in THEOREMS]
+META["note"] = META["note"] + _pv8.LISTEXT_SESSION_NOTE
